@@ -20,3 +20,25 @@ lemmadef sum_none(L set[ref], f map[ref]int):
 # sums depend only on the values at members
 lemmadef sum_frame(L set[ref], f map[ref]int, g map[ref]int):
     (forall q ref :: L[q] ==> f[q] == g[q]) ==> Sum(L, f) == Sum(L, g)
+
+# Occ(s, l): number of occurrences of l in the sequence s.  Tot(D, vals, l): sum over r in D of Occ(vals[r], l).
+fn Occ(s seq[ref], l ref) int
+fn Tot(D set[ref], vals map[ref]seq[ref], l ref) int
+
+axiom occ_nonneg: forall s seq[ref], l ref {Occ(s, l)} :: Occ(s, l) >= 0
+axiom occ_empty: forall s seq[ref], l ref {Occ(s, l)} :: len(s) == 0 ==> Occ(s, l) == 0
+axiom occ_append: forall s seq[ref], x ref, l ref {Occ(append(s, x), l)} :: Occ(append(s, x), l) == Occ(s, l) + ite(x == l, 1, 0)
+lemmadef occ_unfold(s seq[ref]):
+    forall l ref {Occ(s, l)} :: len(s) > 0 ==> Occ(s, l) == ite(s[0] == l, 1, 0) + Occ(s[1:], l)
+
+axiom tot_add: forall D set[ref], vals map[ref]seq[ref], r ref, l ref {Tot(add(D, r), vals, l)} ::
+    Tot(add(D, r), vals, l) == Tot(D, vals, l) + ite(D[r], 0, Occ(vals[r], l))
+axiom tot_del: forall D set[ref], vals map[ref]seq[ref], r ref, l ref {Tot(del(D, r), vals, l)} ::
+    Tot(del(D, r), vals, l) == Tot(D, vals, l) - ite(D[r], Occ(vals[r], l), 0)
+axiom tot_upd: forall D set[ref], vals map[ref]seq[ref], r ref, s seq[ref], l ref {Tot(D, upd(vals, r, s), l)} ::
+    Tot(D, upd(vals, r, s), l) == Tot(D, vals, l) + ite(D[r], Occ(s, l) - Occ(vals[r], l), 0)
+axiom tot_empty: forall vals map[ref]seq[ref], l ref {Tot(emptyset(ref), vals, l)} :: Tot(emptyset(ref), vals, l) == 0
+lemmadef tot_member(D set[ref], vals map[ref]seq[ref], l ref):
+    forall r ref {Occ(vals[r], l)} :: D[r] ==> Occ(vals[r], l) <= Tot(D, vals, l)
+lemmadef tot_none(D set[ref], vals map[ref]seq[ref]):
+    (forall r ref :: !D[r]) ==> (forall l ref {Tot(D, vals, l)} :: Tot(D, vals, l) == 0)
